@@ -273,3 +273,23 @@ func vs_deletedEntry(m1, m2 URLMethods, d SpecDifference) bool {
 
 // vs_URLMethod: the type URLMethod under a name that local variables of the package do not shadow.
 type vs_URLMethod = URLMethod
+
+// vs_validSimpleV: vs_validSimple for a simple schema held by value (map elements are not addressable).
+func vs_validSimpleV(s spec.SimpleSchema) bool {
+	return s.Type != "array" || (s.Items != nil && vs_validSimple(&s.Items.SimpleSchema))
+}
+
+// vs_respOK: what a valid document guarantees about the responses of every operation: the
+// responses object exists and every response header is a valid simple schema.
+func vs_respOK(m URLMethods) bool {
+	return vs_all(func(um URLMethod) bool {
+		return vs_has(m, um) ==> m[um] != nil && m[um].Operation != nil && m[um].Operation.Responses != nil &&
+			vs_all(func(code int) bool {
+				return vs_has(m[um].Operation.Responses.StatusCodeResponses, code) ==>
+					vs_all(func(h string) bool {
+						return vs_has(m[um].Operation.Responses.StatusCodeResponses[code].Headers, h) ==>
+							vs_validSimpleV(m[um].Operation.Responses.StatusCodeResponses[code].Headers[h].SimpleSchema)
+					})
+			})
+	})
+}
